@@ -375,6 +375,45 @@ def handle : Handler := fun op inp impl =>
         (str (field p "why")).startsWith "expected compression " && (str (field p "why")).endsWith "; instead got identity"))
     if other.isEmpty then { v with why := if v.holds then "" else "F31: " ++ v.why }
     else { v with holds := false, why := "failure other than the F31 symptom: " ++ toString ((other.take 2).map (fun p => str (field p "name") ++ " :: " ++ str (field p "why"))) }
+  | "e2e-f34" =>
+    -- the fixed scenario: every case an error definition; those whose message has a boundary space are the finding
+    let f34Msg := " lead and trail "
+    let cases := (arr (field inp "cases")).map tcOf
+    let msgOf (tc : TC) : String :=
+      match tc.udef, tc.sdef with
+      | some d, _ => (match d.resp with | .error e => e.msg.getD "" | _ => "")
+      | _, some d => (match d.err with | some e => e.msg.getD "" | none => "")
+      | _, _ => ""
+    if !(arr (field inp "getCases")).isEmpty || !(cases.any (fun tc => msgOf tc == f34Msg)) ||
+       !(cases.all (fun tc => msgOf tc == f34Msg || !((msgOf tc).startsWith " " || (msgOf tc).endsWith " "))) then
+      bad "e2e-f34 input outside the F34 shape" else
+    let v := judgeE2E inp impl
+    -- every failure of this op must be the F34 symptom — a gRPC-Web permutation of a boundary-space case
+    -- whose ONLY discrepancy is the message without its boundary spaces (as the runner's comparison, or
+    -- as the reference-mode client's wire check grpc-message vs grpc-status-details-bin) — and nothing else
+    let q (s : String) : String := "\"" ++ s ++ "\""
+    let trimmed := "lead and trail"
+    let perms := arr (field impl "perms")
+    let other := perms.filter (fun p =>
+      let why := str (field p "why")
+      let bySpace := ((permCase cases [] p).map (fun tc => msgOf tc == f34Msg)).getD false
+      let symA := why.startsWith "actual error {code: 9 (failed_precondition), message: " &&
+        why.endsWith ("message: " ++ q trimmed ++ "} does not match expected message " ++ q f34Msg) && !(has why "\n") &&
+        (why.splitOn "does not match").length == 2
+      let feedback := "trailers include 'grpc-status-details-bin' value that disagrees with 'grpc-message' value: " ++ q f34Msg ++ " != " ++ q trimmed
+      let rest := ((why.splitOn feedback).foldl (· ++ ·) "").trimAscii.toString
+      let symB := why.startsWith feedback && (rest == "" || rest == "|")
+      str (field p "verdict") != "pass" &&
+        !(has (str (field p "name")) "/Protocol:PROTOCOL_GRPC_WEB/" && bySpace && (symA || symB)))
+    -- ... and the captured responses of every OTHER permutation are what the model of the peers says
+    let strayCapture := perms.filter (fun p =>
+      let a := field p "actual"
+      let isF34 := has (str (field p "name")) "/Protocol:PROTOCOL_GRPC_WEB/" && ((permCase cases [] p).map (fun tc => msgOf tc == f34Msg)).getD false
+      !(isNull a) && !isF34 && !(((permCase cases [] p).map (fun tc => actualMatches tc (resultOf a))).getD false))
+    if !strayCapture.isEmpty then
+      { v with holds := false, agree := false, why := "captured response outside the F34 permutations differs from the model of the peers: " ++ toString ((strayCapture.take 2).map (fun p => str (field p "name"))) } else
+    if other.isEmpty then { v with why := if v.holds then "" else "F34: " ++ v.why }
+    else { v with holds := false, why := "failure other than the F34 symptom: " ++ toString ((other.take 2).map (fun p => str (field p "name") ++ " :: " ++ str (field p "why"))) }
   | _ => bad ("unknown op " ++ op)
 
 end ConfModel.Driver.C02
